@@ -8,7 +8,7 @@ PROP = "C03"
 ENGINE = "traverse"
 TARGETS = ["I2N.Props.C03", "drv_trav"]
 PROPS_FILE = "I2N/Props/C03.lean"
-MONITORS = "count,attempt,present".split(",")
+MONITORS = "count,attempt,present,uid".split(",")
 ANCHORS = {"avocado_i2n/cartgraph/graph.py": ["TestGraph.traverse_object_trees", "TestGraph.traverse_node",
                                               "TestGraph.reverse_node", "TestGraph.traverse_terminal_node"],
            "avocado_i2n/cartgraph/node.py": ["TestNode.is_occupied", "TestNode.is_started", "TestNode.is_finished",
